@@ -22,15 +22,22 @@ class Api:
     def __init__(self):
         self.sent = []
         self.status = 0
+        self.lose_responses = 0      # the next n requests get no response: the API's response wait times out
 
     async def request(self, req, timeout=None, **kw):
         import zigpy_zboss.types as zt
         self.sent.append(req)
+        if self.lose_responses > 0:
+            self.lose_responses -= 1
+            raise asyncio.TimeoutError()
         return req.Rsp(TSN=req.TSN, StatusCat=zt.StatusCategory(0), StatusCode=zt.StatusCodeGeneric(self.status), partial=True)
 
 
 def opt(v):
     return "_" if v is None else str(int(v))
+
+
+nreq = {}
 
 
 def run(ctx):
@@ -56,6 +63,7 @@ def run(ctx):
         app.state.node_info.nwk = t.NWK(0x0000)
         got = []
         app.packet_received = lambda p: got.append(p)
+        nreq.clear()
         # ---- send_packet
         for _ in range(ctx.scale(300, 6000)):
             mode = r.choice([t.AddrMode.NWK, t.AddrMode.Group, t.AddrMode.Broadcast, t.AddrMode.IEEE])
@@ -78,12 +86,16 @@ def run(ctx):
                                  cluster_id=r.choice([0, 6, 0xFFFF, r.getrandbits(16)]), data=t.SerializableBytes(data),
                                  tx_options=txo, radius=radius)
             api.sent.clear()
+            lost = r.choice([0, 0, 0, 0, 1, 2])
+            api.lose_responses = lost
             try:
                 await app.send_packet(pkt)
                 q = api.sent[0] if api.sent else None
                 err = None
             except Exception as ex:   # noqa
-                q, err = None, type(ex).__name__
+                q, err = (api.sent[0] if (api.sent and lost) else None), (None if (api.sent and lost) else type(ex).__name__)
+            api.lose_responses = 0
+            nreq[id(pkt)] = (len(api.sent), lost)
             ieee_hex = hx(addr.serialize()) if mode == t.AddrMode.IEEE else "-"
             a16 = 0 if mode == t.AddrMode.IEEE else int(addr)
             lines.append("appsend %d %d %s %s %s %d %d %d %s %d %s" % (int(mode), a16, ieee_hex, opt(src_ep), opt(dst_ep), pkt.tsn,
@@ -132,6 +144,11 @@ def run(ctx):
                 dst.nwk = r.choice([0, 1, 0xFFFF, r.getrandbits(16)])
             src = t.EUI64([r.getrandbits(8) for _ in range(8)])
             sep, cl = r.randrange(1, 256), r.getrandbits(16)
+            if r.random() < 0.1:
+                # the application reconnects: a new API object; requests must go to the current one
+                api = Api()
+                app._api = api
+                ctx.count("bind:api-replaced")
             api.status = r.choice([0, 0, 1, 24])
             res = {}
             for name in ("Bind_req", "Unbind_req"):
@@ -157,6 +174,11 @@ def run(ctx):
             nontriv = pkt.dst.addr_mode != t.AddrMode.NWK or pkt.tx_options.value != 0
             ctx.case(("send", repr(pkt)), nontrivial=nontriv, sample=dict(kind="send_packet", mode=int(pkt.dst.addr_mode), data_len=len(pkt.data.serialize())))
             ctx.count("send:mode=%d" % int(pkt.dst.addr_mode))
+            cnt, lost = nreq.get(id(pkt), (None, 0))
+            if cnt is not None and cnt > 1:
+                ctx.counterexample("packet-duplicated", dict(inp, responses_lost=lost), "one data request", cnt,
+                                   "one application packet was turned into %d data requests (a late or lost response "
+                                   "does not mean the NCP did not transmit the frame)" % cnt)
             if err or q is None:
                 impl = "zdo" if (q is None and not err) else "refused"
                 if not zdo_path:
